@@ -256,6 +256,76 @@ fn finish(p: &str, renamed: &str, hygienic: Option<&str>, n: u64, sig_differs: &
     r
 }
 
+
+// ---- function-valued binders (letrec / let-bound lambda / local fn) whose right-hand side splices ----
+
+/// A program in which a function-valued binder `B` of quoted code has a splice (or a macro call)
+/// in its right-hand side, and the code that arrives through the splice mentions an outer variable
+/// `N`.  `B` does not call itself, so `letrec B` binds like `let B`: the right-hand side is outside
+/// the binder's scope and `N` in it must keep meaning the outer variable whatever `B` is called.
+/// Returns (source with @B@ for the binder, class labels).
+fn gen_rec(g: &mut Gen) -> (String, Vec<String>) {
+    let mut cl = vec![];
+    let shape = g.below(4);
+    // (a quote spliced in place is written inside the right-hand side itself, where a `letrec`
+    // binder is in scope by definition: only `let` is meaningful there)
+    let kw = if shape == 3 { "let" } else { *g.pick(&["letrec", "let"]) };
+    cl.push(format!("rec:binder:{kw}"));
+    let user_v = *g.pick(&["100.0", "0.25", "7.0"]);
+    let c1 = *g.pick(&["1.0", "0.5", "3.0"]);
+    let cont = match g.below(3) {
+        0 => format!("@B@({c1})"),
+        1 => format!("(@B@({c1}) + @B@(2.0))"),
+        _ => format!("{{\n      let r = @B@({c1})\n      r * 2.0\n    }}"),
+    };
+    let src = match shape {
+        0 => {
+            // numeric argument spliced into the binder's right-hand side
+            cl.push("rec:shape:number-argument".into());
+            let rhs = match g.below(4) {
+                0 => "x + $a".to_string(),
+                1 => "($a * x) - 1.0".to_string(),
+                2 => "if (x > 2.0) { $a } else { x + $a }".to_string(),
+                _ => "{\n        let q = $a\n        q + x\n      }".to_string(),
+            };
+            let arg = match g.below(3) {
+                0 => "@N@".to_string(),
+                1 => "(@N@ + 1.0)".to_string(),
+                _ => "(@N@ * @N@)".to_string(),
+            };
+            format!("#stage(macro)\nfn mac(a) {{\n  `{{\n    {kw} @B@ = |x| {{ {rhs} }}\n    {cont}\n  }}\n}}\n#stage(main)\nfn dsp() {{\n  let @N@ = {user_v}\n  mac!(`{arg})\n}}\n")
+        }
+        1 => {
+            // function argument called inside the binder's right-hand side
+            cl.push("rec:shape:function-argument".into());
+            let rhs = match g.below(2) {
+                0 => "if (x > 2.0) { 0.0 } else { 1.0 + ($a)(x + 1.0) }".to_string(),
+                _ => "($a)(x) + x".to_string(),
+            };
+            format!("#stage(macro)\nfn mac(a) {{\n  `{{\n    {kw} @B@ = |x| {{ {rhs} }}\n    {cont}\n  }}\n}}\n#stage(main)\nfn dsp() {{\n  let @N@ = |y| y * 10.0\n  mac!(`@N@)\n}}\n")
+        }
+        2 => {
+            // the user's own function-valued binder around an expansion whose body mentions a global
+            cl.push("rec:shape:surrounding-code".into());
+            let rhs = match g.below(2) {
+                0 => "if (x > 2.0) { 0.0 } else { 1.0 + scaled!(`(x + 1.0)) }".to_string(),
+                _ => "scaled!(`x) + x".to_string(),
+            };
+            format!("#stage(main)\nfn @N@(x) {{ x * 10.0 }}\n#stage(macro)\nfn scaled(sig) {{ `{{ @N@($sig) }} }}\n#stage(main)\nfn dsp() {{\n  {kw} @B@ = |x| {{ {rhs} }}\n  {cont}\n}}\n")
+        }
+        _ => {
+            // quote-and-splice in place, no macro function
+            cl.push("rec:shape:quote-in-place".into());
+            let rhs = match g.below(2) {
+                0 => "x + $(`@N@)".to_string(),
+                _ => "$(`(@N@ * x)) - 1.0".to_string(),
+            };
+            format!("fn dsp() {{\n  let @N@ = {user_v}\n  {kw} @B@ = |x| {{ {rhs} }}\n  {cont}\n}}\n")
+        }
+    };
+    (src, cl)
+}
+
 // ---- hand-written probes of names the compiler itself synthesises (space "temps") ----------
 
 struct Probe {
@@ -297,6 +367,7 @@ impl Prop for C10 {
             Space { name: "all", size: na, exhaustive: false, chunk: 100, case_timeout_s: 30.0, what: a },
             Space { name: "agree", size: nb, exhaustive: false, chunk: 100, case_timeout_s: 30.0, what: b },
             Space { name: "temps", size: PROBES.len() as u64, exhaustive: true, chunk: 1, case_timeout_s: 30.0, what: c },
+            Space { name: "rec", size: if tier == Tier::Quick { 1500 } else { 30_000 }, exhaustive: false, chunk: 100, case_timeout_s: 30.0, what: "function-valued binders of quoted code (letrec / let-bound lambda, in a macro body, in the user's code around an expansion, next to a quote spliced in place) whose right-hand side contains the splice, named like the outer variable the spliced code mentions; clashing vs fresh binder name" },
         ]
     }
     fn run(&self, space: &str, index: u64, g: &mut Gen, cx: &Cx) -> CaseResult {
@@ -320,6 +391,16 @@ impl Prop for C10 {
                 }
             }
             return r;
+        }
+        if space == "rec" {
+            let (tpl, mut classes) = gen_rec(g);
+            let name = *g.pick(&["t", "u", "acc", "gain", "w"]);
+            let n = *g.pick(&[2u64, 1, 3]);
+            let p = tpl.replace("@N@", name).replace("@B@", name);
+            let renamed = tpl.replace("@N@", name).replace("@B@", "zz9");
+            classes.push(format!("name:{name}"));
+            classes.push("mode:rec".into());
+            return finish(&p, &renamed, None, n, "c10:capture:function-binder-rhs", "c10:accept-differs:function-binder-rhs", classes, true, cx);
         }
         let active = |kf: &str| !cx.strict && cx.excluded(kf);
         let agree = space == "agree";
@@ -450,7 +531,7 @@ impl Prop for C10 {
         Some(finish(p, renamed, hyg, n, sd, sa, vec!["mode:direct".into()], true, cx))
     }
     fn rule(&self) -> String {
-        "Spaces `all` and `agree`: a case is a program with 1-3 `#stage(macro)` functions with code parameters whose quoted bodies bind locals (let, tuple and nested tuple patterns, lambda parameters, let-bound functions) around or next to their splices (optionally handing their parameters on to another macro or through a macro-stage let), used 1-3 times from dsp or from a stage-1 function; every binder name in the macro bodies, the argument code and the surrounding code is drawn from a pool of 9 names (t, x, acc, y, the compiler's own __dt0, feed_id0, __lambda_arg_0, record_update_temp, and g0 — a stage-1 global that macro bodies mention free, so the surrounding code can also capture a macro's free variable), so collisions are the norm. P' = P with every binder inside the macro bodies renamed to a globally fresh name (scope-aware renaming by the harness). Oracle (VM): P and P' are accepted alike and every output word of 1-4 samples is bitwise equal; secondary: P equals its capture-avoiding expansion computed by the harness (every binder instantiation fresh). The harness also computes what name-based substitution would bind (with proper block scoping, with the repository's leaking block scoping, and with `self` as a variable named feed_id<depth>); a disagreement with the capture-avoiding binding structure attributes a failure to a known root cause (signature c10:capture:<binder kind> / c10:scope-leak:<kind> / c10:self-captured:<kind>), and in non-strict mode such cases are skipped and counted. Space `agree` re-draws until those models predict no capture (a domain restriction, independent of strictness), so every collision in it must be harmless; a failure there is an unmodelled defect. Space `temps`: hand-written programs in which a user variable carries a name the compiler synthesises inside quoted code; the user's variable is renamed (each case in a fresh process because the __dt counter is per thread). Non-trivial = the program compiled and a macro-body binder's name occurs free in a spliced argument or anywhere in the surrounding code. Distinct by source + run length.".into()
+        "Spaces `all` and `agree`: a case is a program with 1-3 `#stage(macro)` functions with code parameters whose quoted bodies bind locals (let, tuple and nested tuple patterns, lambda parameters, let-bound functions) around or next to their splices (optionally handing their parameters on to another macro or through a macro-stage let), used 1-3 times from dsp or from a stage-1 function; every binder name in the macro bodies, the argument code and the surrounding code is drawn from a pool of 9 names (t, x, acc, y, the compiler's own __dt0, feed_id0, __lambda_arg_0, record_update_temp, and g0 — a stage-1 global that macro bodies mention free, so the surrounding code can also capture a macro's free variable), so collisions are the norm. P' = P with every binder inside the macro bodies renamed to a globally fresh name (scope-aware renaming by the harness). Oracle (VM): P and P' are accepted alike and every output word of 1-4 samples is bitwise equal; secondary: P equals its capture-avoiding expansion computed by the harness (every binder instantiation fresh). The harness also computes what name-based substitution would bind (with proper block scoping, with the repository's leaking block scoping, and with `self` as a variable named feed_id<depth>); a disagreement with the capture-avoiding binding structure attributes a failure to a known root cause (signature c10:capture:<binder kind> / c10:scope-leak:<kind> / c10:self-captured:<kind>), and in non-strict mode such cases are skipped and counted. Space `agree` re-draws until those models predict no capture (a domain restriction, independent of strictness), so every collision in it must be harmless; a failure there is an unmodelled defect. Space `temps`: hand-written programs in which a user variable carries a name the compiler synthesises inside quoted code; the user's variable is renamed (each case in a fresh process because the __dt counter is per thread). Space `rec`: programs in which a function-valued binder of quoted code (`letrec B = |x| ..` that does not call itself, or `let B = |x| ..`; inside a macro body, in the user's code around an expansion, or next to a quote spliced in place) has the splice in its right-hand side and is named like the outer variable that the spliced code mentions (a number, a lambda, or a global function the macro body calls); the right-hand side lies outside the binder's scope, so the clashing name and a fresh one must give the same outputs. Non-trivial = the program compiled and a macro-body binder's name occurs free in a spliced argument or anywhere in the surrounding code. Distinct by source + run length.".into()
     }
     fn assumptions(&self) -> Vec<String> {
         vec![
@@ -463,7 +544,7 @@ impl Prop for C10 {
     fn required_classes(&self, _tier: Tier) -> Vec<&'static str> {
         vec![
             "compiled", "binder:let", "binder:lambda", "binder:tuple", "binder:nested-tuple", "binder:let-fn", "collide:surrounding-code", "model:no-capture", "hygienic-expansion-compared", "site:fn", "site:dsp", "name:t", "name:__dt0", "name:feed_id0", "name:__lambda_arg_0",
-            "name:record_update_temp", "probe:dt-in-argument", "probe:feed-in-macro-body", "probe:record-update-in-macro", "probe:lambda-arg-macro-pipe", "probe:control-ordinary-name",
+            "name:record_update_temp", "probe:dt-in-argument", "probe:feed-in-macro-body", "probe:record-update-in-macro", "probe:lambda-arg-macro-pipe", "probe:control-ordinary-name", "rec:binder:letrec", "rec:binder:let", "rec:shape:number-argument", "rec:shape:function-argument", "rec:shape:surrounding-code", "rec:shape:quote-in-place",
         ]
     }
 }
